@@ -124,7 +124,7 @@ pub fn main(args: &[String]) {
     let mut out = Out::create(&args[2]);
     let mut r = StdRng::seed_from_u64(seed);
     let names: Vec<Box<Name>> = ["example.test.", "www.example.test.", "WWW.Example.TEST.", "a.www.example.test.", "mail.example.test.", "b.a.www.example.test.",
-        "other.net.", "x.", ".", "ns1.example.test.", "NS2.example.test.", "deep.er.a.www.example.test."].iter().map(|s| nm(s)).collect();
+        "other.net.", "x.", ".", "ns1.example.test.", "NS2.example.test.", "deep.er.a.www.example.test.", "www.beta.test."].iter().map(|s| nm(s)).collect();
     for _ in 0..nseq {
         // now and then a message that crosses offset 16384 (the reach of a 14-bit compression pointer): a first record with
         // opaque RDATA brings the cursor to just below it, the random operations that follow write their names around it
@@ -150,7 +150,7 @@ pub fn main(args: &[String]) {
                 let mut op: Value;
                 let st0 = w.verif_state();
                 if far && opi == 0 {
-                    let rdlen = 16384 - 12 - 11 - *[0usize, 4, 12, 0, 4, 12, 1, 5, 13, 3, 11, 16, 30].choose(&mut r).unwrap();
+                    let rdlen = 16384 - 12 - 11 - *[0usize, 4, 12, 0, 4, 12, 1, 2, 3, 1, 2, 3, 5, 13, 11, 16, 30].choose(&mut r).unwrap();
                     let rd: Vec<u8> = (0..rdlen).map(|i| (i % 251) as u8).collect();
                     let rdata: &Rdata = rd.as_slice().try_into().unwrap();
                     let res = w.add_answer_rr(HintedName::new(Hint::None, Name::root()), 65280.into(), Class::IN, Ttl::from(0), rdata, None);
@@ -193,7 +193,9 @@ pub fn main(args: &[String]) {
                     if hint_s == "none" { if let Some(ln) = &last_rd_name { if **ln == *owner && r.gen_bool(0.6) { hint = Hint::MostRecentNameInRdata; hint_s = "rdname"; } } }
                     if hint_s == "none" { if let Some((_, p)) = explicit.iter().rev().find(|(n, _)| **n == *owner) { if r.gen_bool(0.6) { hint = Hint::Explicit(*p); hint_s = "explicit"; } } }
                     // (a name that was just written in some RDATA is a likely next owner: that is what the hints are for)
-                    let target = names.choose(&mut r).unwrap().clone();
+                    // (far: the first name after the filler straddles offset 16384 for some alignments; a name that shares its
+                    // first label and differs further on must not be compressed against it)
+                    let target = if force_owner && r.gen_bool(0.4) { names[12].clone() } else { names.choose(&mut r).unwrap().clone() };
                     let second = names.choose(&mut r).unwrap().clone();
                     let kind = if force_owner { r.gen_range(1..5) } else { r.gen_range(0..9) };
                     let (ty, class, rd): (u16, u16, Vec<u8>) = match kind {
